@@ -56,7 +56,10 @@ def gen_call_2d(rng, last=None):
             kw = {'method': im, 'method_kwargs': mk}
         else:
             kw = {'method': 'asls', 'method_kwargs': {'lam': 1e2, 'max_iter': 4}, 'axes': rng.choice([0, 1, (0, 1)])}
-        return {'m': m, 'kw': kw, 'data': 'ok', 'w': w}
+        call = {'m': m, 'kw': kw, 'data': 'ok', 'w': w}
+        if rng.random() < 0.3:
+            make_failing_2d(call, rng.choice(['inner_body', 'bad_kw']))
+        return call
     if r < 0.55:
         m = rng.choice(POLY2_PINV + ['poly', 'quant_reg'])
         px, pz = rng.choice([0, 1, 2, 2, 3]), rng.choice([0, 1, 2, 2, 3])
@@ -147,7 +150,7 @@ def pre_raise_2d(call):
     return False
 
 
-def item_2d(call, M, N, raised):
+def item_2d(call, M, N, raised, pre=False):
     """Coq `item2`: registered method name + the concrete values of the parameters the generated table refers to
     (defaults of the method's signature where not passed)."""
     import inspect
@@ -173,7 +176,7 @@ def item_2d(call, M, N, raised):
     return ('IMethod2 "%s" {| b_data := %s; b_dataok := %s; b_w := %s; b_px := %s; b_pz := %s; b_mc := %s; '
             'b_k := (%s, %s, %s, %s); b_dox := %s; b_doz := %s; b_pre_raise := %s; b_post_raise := %s |}'
             % (m, coq_optp(sh), coq_b(call['data'] != 'nan'), coq_optp(wl), zl(px), zl(pz), coq_opt(mc),
-               zl(k1), zl(k2), zl(d1), zl(d2), zl(do1), zl(do2), coq_b(pre_raise_2d(call)), coq_b(raised)))
+               zl(k1), zl(k2), zl(d1), zl(d2), zl(do1), zl(do2), coq_b(pre or pre_raise_2d(call)), coq_b(raised)))
 
 
 FLOAT_KW2 = {'modpoly': {'tol': 1e-3}, 'imodpoly': {'tol': 1e-3, 'num_std': 1.0}, 'penalized_poly': {'tol': 1e-3},
@@ -200,9 +203,11 @@ def group_2d(call, M, N, raised):
     if call['m'] not in OPTIMIZERS2:
         return [item_2d(call, M, N, raised)]
     inner = inner_calls_2d(call)
+    fail = call.get('fail')
     items = [item_2d(dict(call, kw={}), M, N, raised and not inner)]
     for k, (im, ikw, iw) in enumerate(inner):
-        items.append(item_2d({'m': im, 'kw': ikw, 'w': iw, 'data': 'ok'}, M, N, raised and k == len(inner) - 1))
+        post = (fail == 'inner_body' and k == 0) or (raised and k == len(inner) - 1)
+        items.append(item_2d({'m': im, 'kw': ikw, 'w': iw, 'data': 'ok'}, M, N, post, pre=(fail == 'bad_kw' and k == 0)))
     return items
 
 
@@ -316,15 +321,19 @@ def _invariant_2d(f):
     return None
 
 
-def new_2d(x, z):
+def new_2d(x, z, cfg=None):
     from pybaselines import Baseline2D
-    return Baseline2D(None if x is None else np.array(x, dtype=float), None if z is None else np.array(z, dtype=float))
+    from .c03 import cfg_kwargs
+    with warnings.catch_warnings():
+        warnings.simplefilter('ignore')
+        return Baseline2D(None if x is None else np.array(x, dtype=float), None if z is None else np.array(z, dtype=float),
+                          **cfg_kwargs(cfg))
 
 
-def fresh_2d(f, x_in, z_in):
+def fresh_2d(f, x_in, z_in, cfg=None):
     x = x_in if x_in is not None else (None if f.x is None else f.x.copy())
     z = z_in if z_in is not None else (None if f.z is None else f.z.copy())
-    g = new_2d(x, z)
+    g = new_2d(x, z, cfg)
     g.banded_solver = f.banded_solver
     return g
 
@@ -344,11 +353,12 @@ def do_call(f, call, args):
 
 
 def run_history_2d(h, check_fresh=True, unpool=()):
-    from .c03 import same_result, describe_diff
+    from .c03 import same_result, describe_diff, config_invariant
     M, N, seed = h['M'], h['N'], h['seed']
     y = make_data2(M, N, seed)
     x_in, z_in = make_axes(h['x'], M, N)
-    f = new_2d(x_in, z_in)
+    cfg = h.get('cfg')
+    f = new_2d(x_in, z_in, cfg)
     recs = []
     diffs = []
     pool = {'w': np.ones((M, N)), 'y': y.copy()}
@@ -356,20 +366,63 @@ def run_history_2d(h, check_fresh=True, unpool=()):
         args = None if call['m'] == 'set_solver' else call_args_2d(call, M, N, y, pool, i, unpool=unpool)
         ref = None
         if check_fresh and call['m'] != 'set_solver':
-            g = fresh_2d(f, x_in, z_in)
+            g = fresh_2d(f, x_in, z_in, cfg)
             ref = do_call(g, call, call_args_2d(call, M, N, y, pool, i, fresh=True))
         res = do_call(f, call, args)
         recs.append((observe_2d(f) + [1 if res[0] == 'raise' else 0], res[0], res[1] if res[0] == 'raise' else None))
         if ref is not None and not any(d[2] == 'result' for d in diffs) and not same_result(res, ref):
             diffs.append((i, describe_diff(res, ref), 'result'))
         if check_fresh and not any(d[2] == 'invariant' for d in diffs):
-            inv = invariant_2d(f)
+            inv = config_invariant(f, cfg) or invariant_2d(f)
             if inv:
                 diffs.append((i, 'invariant: ' + inv, 'invariant'))
     return recs, diffs
 
 
-def gen_history_2d(rng, nmax=10):
+def enumerated_2d():
+    """Fixed grid: 2-D optimizers rejected inside / right after / before their delegated fit, on objects with a
+    non-default output dtype, followed by ordinary probes."""
+    import json
+    out = []
+    probes = [{'m': 'poly', 'kw': {'poly_order': [1, 2], 'max_cross': None}, 'data': 'ok', 'w': None},
+              {'m': 'pspline_asls', 'kw': {'num_knots': [4, 4], 'spline_degree': [2, 2], 'diff_order': [2, 2]}, 'data': 'ok', 'w': None}]
+    k = 0
+    for m, modes in (('collab_pls', ('inner_body', 'bad_kw')), ('adaptive_minmax', ('inner_body', 'bad_kw')),
+                     ('individual_axes', ('inner_body', 'bad_kw'))):
+        for mode in modes:
+            for dt in ('float32', 'int64'):
+                if m == 'collab_pls':
+                    kw = {'method': 'pspline_asls', 'method_kwargs': {'max_iter': 4, 'lam': 10, 'num_knots': [4, 4], 'spline_degree': [2, 2]}}
+                elif m == 'adaptive_minmax':
+                    kw = {'method': 'modpoly', 'poly_order': 1}
+                else:
+                    kw = {'method': 'asls', 'method_kwargs': {'lam': 1e2, 'max_iter': 4}, 'axes': 0}
+                ok = {'m': m, 'kw': json.loads(json.dumps(kw)), 'data': 'ok', 'w': None}
+                bad = make_failing_2d({'m': m, 'kw': json.loads(json.dumps(kw)), 'data': 'ok', 'w': None}, mode)
+                out.append({'dim': 2, 'M': 12, 'N': 10, 'x': ['both', 'none', 'x'][k % 3], 'seed': 21 + k,
+                            'cfg': {'dtype': dt, 'cf': True, 'as': False}, 'calls': [bad] + json.loads(json.dumps(probes)) + [ok]})
+                k += 1
+    return out
+
+
+def make_failing_2d(call, mode):
+    kw = call['kw']
+    mk = dict(kw.get('method_kwargs') or {})
+    if mode == 'bad_kw':
+        mk['no_such_parameter'] = 1
+    elif call['m'] == 'adaptive_minmax':
+        if kw['method'] == 'poly':      # poly has no max_iter: that would be an unknown keyword, rejected before the setup
+            kw['method'] = 'modpoly'
+        mk['max_iter'] = 'many'
+    else:
+        mk['lam'] = -1.0
+    kw['method_kwargs'] = mk
+    call['fail'] = mode
+    return call
+
+
+def gen_history_2d(rng, nmax=10, k=0):
+    hist_index = k
     M, N = rng.choice([(9, 11), (12, 10), (10, 14)])
     xk = rng.choice(['none', 'none', 'x', 'z', 'both', 'both', 'unsorted'])
     last = {}
@@ -396,7 +449,11 @@ def gen_history_2d(rng, nmax=10):
         calls = calls[:pos] + seq + calls[pos:]
     from .c03 import echo
     calls = echo(rng, calls, FLOAT_KW2)
-    return {'dim': 2, 'M': M, 'N': N, 'x': xk, 'seed': rng.randrange(10 ** 6), 'calls': calls}
+    from .c03 import CONFIGS
+    cfg = CONFIGS[hist_index % len(CONFIGS)]
+    if not cfg['cf']:
+        calls = [dict(c, data='ok') if c.get('data') == 'nan' else c for c in calls]
+    return {'dim': 2, 'cfg': cfg, 'M': M, 'N': N, 'x': xk, 'seed': rng.randrange(10 ** 6), 'calls': calls}
 
 
 def nontrivial_2d(h):
